@@ -63,6 +63,18 @@ func (o *Out) Disagree(key, what string, detail interface{}) {
 	o.w.Flush()
 }
 
+// Emit writes a record line ({"kind":"rec","rec":v}) that the orchestrator collects (trace events for TLC).
+func (o *Out) Emit(v interface{}) {
+	o.mu.Lock()
+	defer o.mu.Unlock()
+	b, err := json.Marshal(map[string]interface{}{"kind": "rec", "rec": v})
+	if err != nil {
+		return
+	}
+	o.w.Write(b)
+	o.w.WriteByte('\n')
+}
+
 // Sample records an example scenario for the evidence file (first few only).
 func (o *Out) Sample(v interface{}) {
 	o.mu.Lock()
